@@ -48,7 +48,8 @@ TEXT = {"set": "Def One", "soft": " def  ONE ", "hard": "other text"}
 TEXT_STATES = ["set-unset", "unset-set", "equal", "soft", "hard"]
 UNC = [None, 0, 0.5, 0.7]
 DTYPE_KINDS = ["convertible", "convertible-rev", "unconvertible", "src-float", "equal-values", "src-empty",
-               "dest-empty", "src-untyped-text", "src-multiline-string"]
+               "dest-empty", "src-untyped-text", "src-multiline-string", "src-multiline-after-shared",
+               "src-multiline-later", "src-shared-then-number-text"]
 
 
 def variations():
@@ -137,6 +138,16 @@ def apply_var(dest, src, var):
             # same dtype on both sides, but the source value holds a line break
             d.update(dtype="string", values=["x"])
             s.update(dtype="string", values=["a\nb", "c"])
+        elif kind == "src-multiline-after-shared":
+            # the first source value is one the destination has; the first value it lacks holds a line break
+            d.update(dtype="string", values=["x"])
+            s.update(dtype="string", values=["x", "a\nb"])
+        elif kind == "src-multiline-later":
+            d.update(dtype="string", values=["x"])
+            s.update(dtype="string", values=["c", "a\nb"])
+        elif kind == "src-shared-then-number-text":
+            d.update(dtype="string", values=["x", "1"])
+            s.update(dtype="string", values=["1", "x", "2"])
         elif kind == "src-untyped-text":
             d.update(dtype="text", values=["a\nb"])
             s.update(dtype="string", values=["c"])
